@@ -2,7 +2,7 @@
 CFG = {
     "modules": ["VaxisModel.Props.C01", "VaxisModel.Props.C01Display", "VaxisModel.Props.C01Clip", "VaxisModel.Props.C01Sixel", "VaxisModel.Props.C01Cluster", "VaxisModel.Props.C01App", "VaxisModel.Witness.C11ShowCursor", "VaxisModel.Props.C01Facts", "VaxisModel.Props.C01Seq"],
     "extractors": ["C07", "C04", "C18", "C11", "C01"],
-    "drivers": ["C01"],
+    "drivers": ["C01", "C01Ops"],
     "stateful": True,
     "trivial_prefix": ("-", "bytes="),
     "rule": "frame histories on a real Vaxis over the fake console: corpus scenarios (corpus/C01/*.ops: minimised past failures F01, F02, F113) first; "
